@@ -60,6 +60,7 @@ const (
 	decoRichOperands
 	decoCondTrueBranch
 	decoStackedPrefix
+	decoInContext
 	decoCount
 )
 
@@ -90,6 +91,7 @@ type c04chain struct {
 	prefix   []string   // len k+1, "" for none
 	cond     int        // 0 none, 1 trailing conditional, 2 conditional in branches
 	inner    int        // operand index replaced by a parenthesised conditional, -1 none
+	ctx      int        // 0 at the top of the print; else the whole expression stands inside another construct (c04Contexts)
 }
 
 func (p *c04) chainAt(i int) *c04chain {
@@ -102,6 +104,7 @@ func (p *c04) chainAt(i int) *c04chain {
 		j := i - p.offs[k]
 		deco := j % decoCount
 		idx := j / decoCount
+		chainNo := idx
 		n := k + 1
 		for x := 0; x < n; x++ {
 			c.ops = append(c.ops, c04Bin[idx%p.nOps].op)
@@ -109,11 +112,14 @@ func (p *c04) chainAt(i int) *c04chain {
 		}
 		c.fill(nil)
 		un := []string{"-", "not", "+"}
+		// which variant of a decoration a chain gets is decided by the chain's number (not by the case index, whose
+		// residues repeat with the number of decorations)
+		v := chainNo*7 + deco
 		switch deco {
 		case decoUnary0, decoUnary1, decoUnaryLast:
 			pos := map[int]int{decoUnary0: 0, decoUnary1: 1, decoUnaryLast: n}[deco]
-			c.setPrefix(pos, un[i%3])
-			if (i/3)%2 == 1 && c.prefix[pos] != "" {
+			c.setPrefix(pos, un[v%3])
+			if (v/3)%2 == 1 && c.prefix[pos] != "" {
 				c.enrich(pos, 9) // the operand of the prefix operator in parentheses
 			}
 		case decoNotFirst:
@@ -122,21 +128,25 @@ func (p *c04) chainAt(i int) *c04chain {
 		case decoTrailingCond:
 			c.cond = 1
 		case decoInnerCond:
-			c.inner = i % (n + 1)
+			c.inner = v % (n + 1)
 		case decoCondBranches:
 			c.cond = 2
 		case decoCondTrueBranch:
 			c.cond = 3
 		case decoStackedPrefix:
 			st := []string{"not -", "- -", "not not", "- not", "+ -", "not - -"}
-			c.setPrefix(0, st[i%len(st)])
-			c.setPrefix(n, st[(i/7)%len(st)])
+			c.setPrefix(0, st[v%len(st)])
+			c.setPrefix(n, st[(v/7)%len(st)])
 			if n >= 2 {
-				c.setPrefix(1, st[(i/3)%len(st)])
+				c.setPrefix(1, st[(v/3)%len(st)])
 			}
+		case decoInContext:
+			// the chain, with and without a trailing conditional, as a subscript, an argument, an element ...
+			c.cond = chainNo % 2
+			c.ctx = 1 + (chainNo/2)%len(c04Contexts)
 		case decoRichOperands:
 			for x := 0; x <= n; x++ {
-				c.enrich(x, i/decoCount+x)
+				c.enrich(x, chainNo+x)
 			}
 		}
 		return c
@@ -158,6 +168,9 @@ func (p *c04) chainAt(i int) *c04chain {
 	c.cond = r.Intn(4)
 	if r.Intn(3) == 0 {
 		c.inner = r.Intn(n + 1)
+	}
+	if r.Intn(4) == 0 {
+		c.ctx = 1 + r.Intn(len(c04Contexts))
 	}
 	for x := 0; x <= n; x++ {
 		if r.Intn(3) == 0 {
@@ -354,6 +367,42 @@ func (c *c04chain) ref() gen.Expr {
 	return c.wrapCond(e, func(x gen.Expr) gen.Expr { return x })
 }
 
+// c04Contexts: places that take a whole expression. Grouping inside them is the same as at the top of a print.
+var c04Contexts = []func(e gen.Expr) gen.Expr{
+	func(e gen.Expr) gen.Expr { return &gen.EAttr{X: &gen.EName{Name: "wv"}, Key: e} }, // wv[E]
+	func(e gen.Expr) gen.Expr { return &gen.ECall{Fn: "ident", Args: []gen.Expr{e}} },  // ident(E)
+	func(e gen.Expr) gen.Expr {
+		return &gen.ECall{Fn: "fn", Args: []gen.Expr{&gen.ENum{Text: "1"}, e, &gen.ENum{Text: "2"}}}
+	}, // fn(1, E, 2)
+	func(e gen.Expr) gen.Expr {
+		return &gen.EFilter{X: &gen.EName{Name: "wv"}, Name: "ident", Args: []gen.Expr{e}}
+	}, // wv|ident(E)
+	func(e gen.Expr) gen.Expr { return &gen.EArr{Els: []gen.Expr{e, &gen.ENum{Text: "1"}}} }, // [E, 1]
+	func(e gen.Expr) gen.Expr {
+		return &gen.EAttr{X: &gen.EGroup{X: &gen.EHash{Keys: []gen.Expr{&gen.EStr{S: "k"}}, Vals: []gen.Expr{e}}}, Key: &gen.EStr{S: "k"}, Dot: true}
+	}, // ({'k': E}).k
+	func(e gen.Expr) gen.Expr {
+		return &gen.EInterp{Parts: []gen.Expr{&gen.EStr{S: "i:"}, e, &gen.EStr{S: "."}}}
+	}, // "i:#{E}."
+	func(e gen.Expr) gen.Expr { return &gen.ETest{X: &gen.ENum{Text: "2"}, Test: "eq", Args: []gen.Expr{e}} }, // 2 is eq(E)
+	func(e gen.Expr) gen.Expr {
+		return &gen.EMethod{X: &gen.EName{Name: "wv"}, Name: "m", Args: []gen.Expr{e}}
+	}, // wv.m(E)
+	func(e gen.Expr) gen.Expr {
+		return &gen.EAttr{X: &gen.EGroup{X: &gen.EHash{Keys: []gen.Expr{&gen.EGroup{X: e}}, Vals: []gen.Expr{&gen.ENum{Text: "1"}}}}, Key: &gen.EStr{S: "k"}, Dot: true}
+	}, // ({(E): 1}).k
+}
+
+func (c *c04chain) inContext(e gen.Expr, reference bool) gen.Expr {
+	if c.ctx == 0 {
+		return e
+	}
+	if reference {
+		e = &gen.EGroup{X: e} // the reference grouping is delimited explicitly
+	}
+	return c04Contexts[c.ctx-1](e)
+}
+
 func (c *c04chain) sig() string {
 	var b strings.Builder
 	for i, op := range c.ops {
@@ -361,7 +410,7 @@ func (c *c04chain) sig() string {
 		b.WriteString("·" + op + "·")
 	}
 	b.WriteString(c.prefix[len(c.ops)])
-	fmt.Fprintf(&b, "|c%d|i%d", c.cond, c.inner)
+	fmt.Fprintf(&b, "|c%d|i%d|x%d", c.cond, c.inner, c.ctx)
 	return b.String()
 }
 
@@ -397,6 +446,24 @@ func astShape(n parse.Node) string {
 			parts = append(parts, astShape(a))
 		}
 		return "[" + strings.Join(parts, ",") + "]"
+	case *parse.FilterExpr:
+		parts := []string{}
+		for _, a := range x.Args {
+			parts = append(parts, astShape(a))
+		}
+		return "filter:" + x.Name + "(" + strings.Join(parts, ",") + ")"
+	case *parse.GetAttrExpr:
+		parts := []string{}
+		for _, a := range x.Args {
+			parts = append(parts, astShape(a))
+		}
+		return "attr(" + astShape(x.Cont) + " -> " + astShape(x.Attr) + ")(" + strings.Join(parts, ",") + ")"
+	case *parse.HashExpr:
+		parts := []string{}
+		for _, kv := range x.Elements {
+			parts = append(parts, astShape(kv.Key)+": "+astShape(kv.Value))
+		}
+		return "{" + strings.Join(parts, ",") + "}"
 	case *parse.PrintNode:
 		return astShape(x.X)
 	case *parse.ModuleNode:
@@ -436,13 +503,13 @@ func (p *c04) exprProgram(e gen.Expr, val int) *Program {
 
 func (p *c04) Describe(i int) interface{} {
 	c := p.chainAt(i)
-	return map[string]interface{}{"flat": "{{ " + gen.ExprSource(c.flat()) + " }}", "reference_grouping": "{{ " + gen.ExprSource(gen.FullParen(c.ref())) + " }}"}
+	return map[string]interface{}{"flat": "{{ " + gen.ExprSource(c.inContext(c.flat(), false)) + " }}", "reference_grouping": "{{ " + gen.ExprSource(c.inContext(gen.FullParen(c.ref()), true)) + " }}"}
 }
 
 func (p *c04) Run(i int) (res fw.Result) {
 	c := p.chainAt(i)
-	flat := c.flat()
-	ref := gen.FullParen(c.ref())
+	flat := c.inContext(c.flat(), false)
+	ref := c.inContext(gen.FullParen(c.ref()), true)
 	flatSrc := "{{ " + gen.ExprSource(flat) + " }}"
 	refSrc := "{{ " + gen.ExprSource(ref) + " }}"
 	key := "c04:" + flatSrc
@@ -500,7 +567,7 @@ func (p *c04) Run(i int) (res fw.Result) {
 }
 
 func (p *c04) Rule() string {
-	return "exhaustive: every chain of k binary operators (all 27, incl. is / is not with a test as right operand) over self-identifying operands for k<=2 (quick) / k<=4 (thorough: 27+729+19683+531441 chains), each in 11 decorations (plain; operands that are not plain names: interpolated strings ending / starting / consisting of an interpolation, calls, filters, subscripts of array and hash literals, string literals; unary -,+,not on the first / second / last operand; not on the first plus - on the last; trailing conditional; a parenthesised conditional as an operand; right-nested conditionals with the chain in the branches; a conditional nested in the true branch; stacked prefix operators (not -, - -, not not, - not, + -) on first, second and last operand); operands may also be number literals; every other operand name begins with an operator word (index1, order3, isle5, nota7, andy9 ...); plus seeded random chains of 5..12 operators with random prefixes and conditionals. Oracle: reference precedence climbing over a pinned copy of the operator table yields the fully parenthesised form; the flat and the parenthesised spelling must parse to the same tree (GroupExpr erased) and render identically (output and error kind) under 3 valuations (all chains k<=3, every 20th k=4 chain, all random chains). Non-trivial = k>=2; distinct = operator sequence + decoration."
+	return "exhaustive: every chain of k binary operators (all 27, incl. is / is not with a test as right operand) over self-identifying operands for k<=2 (quick) / k<=4 (thorough: 27+729+19683+531441 chains), each in 12 decorations (plain; operands that are not plain names: interpolated strings ending / starting / consisting of an interpolation, calls, filters, subscripts of array and hash literals, string literals; unary -,+,not on the first / second / last operand; not on the first plus - on the last; trailing conditional; a parenthesised conditional as an operand; right-nested conditionals with the chain in the branches; a conditional nested in the true branch; stacked prefix operators (not -, - -, not not, - not, + -) on first, second and last operand; the whole chain, with and without a trailing conditional, inside a subscript / call / filter / method / test argument list / array / hash value / computed hash key / interpolation); operands may also be number literals; every other operand name begins with an operator word (index1, order3, isle5, nota7, andy9 ...); plus seeded random chains of 5..12 operators with random prefixes and conditionals. Oracle: reference precedence climbing over a pinned copy of the operator table yields the fully parenthesised form; the flat and the parenthesised spelling must parse to the same tree (GroupExpr erased) and render identically (output and error kind) under 3 valuations (all chains k<=3, every 20th k=4 chain, all random chains). Non-trivial = k>=2; distinct = operator sequence + decoration."
 }
 
 func (p *c04) Assumptions() []string {
